@@ -22,6 +22,25 @@ type keyPath struct {
 	Segs []string // "[]" = list element
 	Type reflect.Type
 	Leaf bool
+	Enum string // first value of the enumeration the field's jsonschema tag documents, if any
+}
+
+// sample is a value of the right shape for the key path; for enumerated settings a documented value, so that a
+// control document is never refused for its value (only key paths are under test).
+func (k keyPath) sample() any {
+	if k.Enum != "" && k.Type.Kind() == reflect.String {
+		return k.Enum
+	}
+	return sampleValue(k.Type)
+}
+
+func firstEnum(tag string) string {
+	for _, part := range strings.Split(tag, ",") {
+		if strings.HasPrefix(part, "enum=") {
+			return strings.TrimPrefix(part, "enum=")
+		}
+	}
+	return ""
 }
 
 func (k keyPath) String() string { return strings.Join(k.Segs, ".") }
@@ -60,7 +79,11 @@ func collectKeyPaths(t reflect.Type, prefix []string, out *[]keyPath) {
 			continue
 		}
 		p := append(append([]string(nil), prefix...), name)
+		n0 := len(*out)
 		addType(ft, p, out)
+		if e := firstEnum(f.Tag.Get("jsonschema")); e != "" && len(*out) == n0+1 {
+			(*out)[n0].Enum = e
+		}
 	}
 }
 
@@ -565,7 +588,7 @@ func forEachMisspelling(f func(kp keyPath, misspelled []string, doc map[string]a
 		siblingsOf[parent][kp.Segs[len(kp.Segs)-1]] = true
 	}
 	for _, kp := range paths {
-		val := sampleValue(kp.Type)
+		val := kp.sample()
 		if _, err := parseDoc(docWith(kp.Segs, val), noEnv); err != nil {
 			continue
 		}
@@ -639,7 +662,7 @@ func TestC16(t *testing.T) {
 		}
 	}
 	for _, kp := range paths {
-		val := sampleValue(kp.Type)
+		val := kp.sample()
 		ctl := docWith(kp.Segs, val)
 		if _, err := parseDoc(ctl, noEnv); err != nil {
 			var vs vlist
